@@ -163,6 +163,44 @@ func %s() {
 `, combo, name, k, text, wantExpr)
 		fam.Instances = append(fam.Instances, Instance{Func: name, Stratum: fmt.Sprintf("members=%d", k), Desc: "conc block with members " + combo, Text: text, Expect: []string{"executed"}})
 	}
+	dupText := "rule \"r\" begin\n conc {\n  fn(0, p0)\n  fn(0, p0)\n  obj.Do(1, p1)\n  fn(0, p0)\n  obj.Do(1, p1)\n  obj.Inner.Do(2, p2)\n  obj.Inner.Do(2, p2)\n  a = w(3, v3, p3)\n  a = w(3, v3, p3)\n }\n ev(\"after\")\n return a\nend\n"
+	fmt.Fprintf(&b, `
+// textually identical members: each occurrence is a statement of its own
+func H_conc_duplicates() {
+	k := 4
+	p := []bool{vnd.Bool("p0"), vnd.Bool("p1"), false, false}
+	v := symVals("v", k)
+	dc := newDC(nil)
+	addFlags(dc, "p", p)
+	addVals(dc, "v", v)
+	obj := &Obj{Inner: &Inner{}}
+	dc.Add("obj", obj)
+	dc.Add("w", w)
+	dc.Add("fn", member)
+	rb := buildText(dc, %q)
+	eng := engine.NewGengine()
+	err := eng.Execute(rb, true)
+	vnd.Event("ret")
+	vnd.Quiesce()
+	res, _ := eng.GetRulesResultMap()
+	vnd.Reach("executed")
+	for i, want := range []int{3, 2, 2, 2} {
+		vnd.Assert(vnd.Count(mname(int64(i), ".s")) == want, "every member runs exactly once per occurrence")
+	}
+	vnd.RequireJoined("ret")
+	vnd.NoRaces("map:")
+	vnd.NoRaces("var:eMsg")
+	vnd.StopIfViolated()
+	anyFail := vnd.Or(p[0], p[1])
+	vnd.Assert(vnd.Iff(err != nil, anyFail), "the block fails iff a member fails")
+	vnd.Assert(vnd.Iff(vnd.Count("after") == 1, vnd.Not(anyFail)), "the next statement runs iff the block succeeded")
+	if err == nil {
+		x, ok := res["r"].(int64)
+		vnd.Assert(ok && x == v[3], "the statement after the block observes the assignment")
+	}
+}
+`, dupText)
+	fam.Instances = append(fam.Instances, Instance{Func: "H_conc_duplicates", Stratum: "duplicates", Desc: "conc block with textually identical members", Text: dupText, Expect: []string{"executed"}})
 	fam.Files[repoDir+"/zz_verif/"+pkg+"/h.go"] = strings.Replace(stdHead(pkg), "import (", "import (\n\t\"strconv\"", 1) + b.String()
 	fam.Files[repoDir+"/zz_verif/"+pkg+"/lib.go"] = libFile(pkg)
 	fam.TestFile = repoDir + "/zz_verif/" + pkg + "/zz_replay_test.go"
